@@ -209,15 +209,17 @@ PROPS["C16"] = dict(level="proof", module="Texel.Properties.C16", translators=[]
     technique="Lean 4 theorems on a model of the document decoder/encoder incl. the library semantics that decide acceptance (rejection clauses for every document) + differential correspondence on built-in and mutated documents",
     theorems=["Texel.C16.C16_not_an_object", "Texel.C16.C16_missing_crs", "Texel.C16.C16_missing_tileMatrices", "Texel.C16.C16_no_tile_matrices", "Texel.C16.C16_crs_wrong_kind",
               "Texel.C16.C16_tm_not_object", "Texel.C16.C16_nonpositive_size_rejected", "Texel.C16.C16_nonpositive_float", "Texel.C16.C16_non_integer_id",
-              "Texel.C16.C16_tm_nonpositive_tileWidth", "Texel.C16.C16_tm_nonpositive_cellSize", "Texel.C16.C16_tm_size_wrong_kind", "Texel.C16.C16_tm_non_integer_id", "Texel.C16.C16_tms_rejected_of_member"],
+              "Texel.C16.C16_tm_nonpositive_tileWidth", "Texel.C16.C16_tm_nonpositive_cellSize", "Texel.C16.C16_tm_size_wrong_kind", "Texel.C16.C16_tm_non_integer_id", "Texel.C16.C16_tms_rejected_of_member",
+              "Texel.C16.C16_roundtrip", "Texel.C16.C16_stable", "Texel.C16.C16_accepted_is_well_formed"],
     streams=["tmsdoc"], design_ref="DESIGN.md §6 C16",
     trusted=["Model.TmsJson is a hand-written model of TileMatrixSet.UnmarshalJSON/MarshalJSON and of the behaviour of encoding/json, marshmallow, validator and defaults as far as it decides accept/reject and the decoded value; "
              "tied by the tmsdoc correspondence: all built-in documents and thousands of structural mutations per run, accept/reject and the re-encoded document (as a JSON tree, numbers as float64) must agree",
              "JSON numbers are exact decimals in the model and float64 in the code (compared numerically); url.ParseRequestURI and the two CRS regular expressions are re-implemented in the model",
              "the model is total, so 'never panics' for the code rests on the harness (recover around every decode/encode)"],
     level_text="Theorems for every document: not an object / no crs / no or non-array or empty tileMatrices / crs of a wrong kind / a tile matrix that is not an object, has a size that is not a number, a zero or negative size or cell size, or an id that is not a decimal integer - "
-               "all are rejected (with an error, the model has no other outcome), and one rejected tile matrix rejects the document. The round trip (decode, encode, decode: equal value, stable encoding; built-in documents semantically unchanged) is decided on every generated document "
-               "by the harness on the real code and compared with the model's re-encoding; the model agreed on every one of >100 000 mutated documents while it was written.",
-    level_note="Trusted: Lean kernel; the model of four libraries' behaviour is validated by differential testing, not derived from their source. The round-trip theorem on the model is future work (stated in DESIGN).")
+               "all are rejected (with an error, the model has no other outcome), and one rejected tile matrix rejects the document. Round trip: for every document the decoder accepts, decoding the encoding of the decoded value gives that value again "
+               "(C16_roundtrip: decode_encode on well-formed values + decode_WF), so the encoding is stable, and every accepted value has positive sizes and integer ids. On the real code the same is decided per generated document by the harness "
+               "(equal CRS kind, byte-identical second encoding, built-in documents semantically unchanged) and the re-encoded tree is compared with the model's.",
+    level_note="Trusted: Lean kernel; the model of four libraries' behaviour is validated by differential testing (it agreed on every one of >100 000 mutated documents), not derived from their source.")
 
 NOT_CLAIMED = {}
